@@ -602,7 +602,13 @@ def obligations(tier: str) -> List[Ob]:
                         ('K5', t, ('strip-tnl',)), ('K5', t, ('grep', 'a')),
                         ('K5', t, ('filter', ('contents', ('matches', False, '^a'))))]
     for kernel, f, tree in ascii_cases:
-        f(kernel, tree, 3 if quick else 4, alphabet=ascii_, name=_name(tree) + '.ascii')
+        n_ascii = 3 if quick else 4
+        if tree == ('empty',):
+            # the failure message of is-empty is built eagerly with repr(first line); repr of a symbolic str
+            # realises it (vsym/chfix.py no. 3: never replaced by a free symbol), i.e. one path per concrete
+            # text: 98 texts of |s| <= 1 in quick, 9507 of |s| <= 2 in thorough
+            n_ascii -= 2
+        f(kernel, tree, n_ascii, alphabet=ascii_, name=_name(tree) + '.ascii')
 
     # ---- K7
     def a7(tree, maxlen=None, timeout=300, **kw):
